@@ -327,7 +327,7 @@ class FromMapProjectable(FromMap):
     @functools.cached_property
     def kwargs(self):
         options = self.operand("kwargs")
-        if self.columns_arg_required or self.columns_operand:
+        if self.columns_arg_required or self.columns_operand is not None:
             options = options.copy()
             options["columns"] = self.columns
         return options
